@@ -760,6 +760,12 @@ func (w *World) opMulti() {
 		// a long list (an implementation may batch or take another path
 		// above some size), the receiver possibly anywhere in it
 		n = []int{33, 40, 64, 65, 70, 257, 300}[w.t.Choose("ops", "multi.largen", 7)]
+		if w.t.Chance("ops", "multi.huge", 1, 8) {
+			// ... and, rarely, thousands of terms (chunked or tiled
+			// implementations have their own boundaries up there)
+			n = []int{1023, 1025, 2049}[w.t.Choose("ops", "multi.hugen", 3)]
+			w.r.Probe("multi_huge_list")
+		}
 		recvAt = w.t.Choose("ops", "multi.recvat", n)
 		w.r.Probe("multi_large_list")
 	}
